@@ -363,6 +363,16 @@ func (l *queryLog) parseSearchParams(
 		p.maxFileScanEntries = 0
 	}
 
+	if p.limit < 0 {
+		return nil, fmt.Errorf("limit: negative value %d", p.limit)
+	} else if p.offset < 0 {
+		return nil, fmt.Errorf("offset: negative value %d", p.offset)
+	}
+
+	// Make sure that the sum of offset and limit, which is the number of
+	// entries to collect, doesn't overflow.
+	p.limit = min(p.limit, math.MaxInt-p.offset)
+
 	for _, v := range []struct {
 		urlField string
 		ct       criterionType
